@@ -71,9 +71,82 @@ func Candidate(name string) (*big.Int, bool) {
 	return new(big.Int).Set(e.p), e.safe
 }
 
+// precomputed holds the results of the searches in buildP for the named constructions (each takes
+// 0.3-2 s; worker subprocesses would all repeat them). The oracle of every check is computed from
+// the value itself (IsSafePrime2048), so an entry can never cause a wrong verdict; VerifyCandidates
+// re-establishes the describing predicates for non-vacuity.
+var precomputed = map[string]string{
+	"prime-notsafe-a": "BF9014275FF9795665A12FE9A96F97BF606B6CD9F745A5E9D1FE3001F3919DB2" +
+		"0260FBFE650926EAE3359CEB61568B9E08770829551B50BB0CEAAFDF579DE2BC" +
+		"2D99EC4D195C765FA1A195916636E0DCEE55912F2E3B45C214ECEDC2679BD738" +
+		"39E0B39BAE1DC64ECFE93FCCBB579ECEE5FDD295CA5EE2FED551B4CBB136087C" +
+		"847F58836B076613153B3C322D221B5936A1A4BACB1E76B518DE3BABA92C9DB1" +
+		"63B0684415C4CCCA95F631FBC8031272184160004512DE3B31BD6B3DB5DD65B0" +
+		"A6AECC4C000B4395D8D0E8BD2E84C337096F4982FAC081D2FC664D1F6923E253" +
+		"EFD7D1F25BF4E85D6CFF4F5BA2ACB977621CB532722CC51CBC01F817A84A76EF",
+	"prime-notsafe-b": "8E7E26FF43F1401CFFFBB3DCD65E82CA0BC4A903D746CF0B29DF8CBBE628FCC1" +
+		"796AD1391A3515D8EB570DF29305798B5079686060E23D53FD42160717B6DE43" +
+		"CBABBA0C958410020877FF20A434E385F32A23D53FC42977746D7F07AB833BFA" +
+		"F39C0A4C66CEA6041E69B46C7FB483DAD887B1391929C01379915F3C77E82390" +
+		"887C7C404955F3F5B395BA1960EB78E07D530BB6E1842602F5C86E6F693BC817" +
+		"115AD29F2B3509BB2DF8C9FC3F8336C65153E52BC177245E3E0AB406E19FA704" +
+		"3AD4356C1AC5DAC35FC1028B149EB3ABE2C0052E2E832ACBD6FEF2FC0F79EDBA" +
+		"6AD397A147B97A6C50444E8AD2AD065D0F37E486EB1CD7CCDED265B150F6BD0B",
+	"sophie-composite-a": "FF0A546852AE4243925024CC9BCD2445A03BDD6A789D569F33C78A528B72AC74" +
+		"4B9EBC8E38640F60C15BBC484FE69C4D57BBA20F1EA324B381EF3CF5A293F2F8" +
+		"92A42B2CBAC8DB7661A658771244BC4195771148D6B25850874AA660EF404470" +
+		"CBB9A609A84AD6ABA88C4A4F1B3E470DA7EF94F20830C646A996F8C87D038EF6" +
+		"C93465B091A8A1BBFF357C942D9D88BDD5BAF5D70EDC44164999529B61D7CB9C" +
+		"D4858E58343EE4F430C5264FED871AF6B39913864C102A3DD4965DCAD2016638" +
+		"941321AE91DF6E80841E5875762B5593CA66D12BA554389F16E6EA23C21C8C54" +
+		"C16510BE7246EEC99252B8D05C7D76A5D367F9BB4F3782A8FAEEE8A62EB8748B",
+	"sophie-composite-b": "9444BA69F672974394A10A32A44BDD5216E4632AA9BD875D1ADBFABEFA849210" +
+		"DD6AE4E7F0654849319DD6D4AFA78A64E138E1286D7F6AD54A14D28F0C626B64" +
+		"2B4EB5DFD52973E161121D1226A1808BD249CA054CCE262596E3BE23EEE19C19" +
+		"3B4C64B88277BE760ED2CF1D120122F6F352AA0ECA82630F571D6A331319D395" +
+		"9E926B70DFD2FEA6F127A61F6FE3B1C07D078344E2AE64548A1028401EBE11CC" +
+		"464D74B994A8740E0C3B952F719664E8581014825CB1738B8E4A3882EC0E369F" +
+		"3CD718A15B033323B2685DE02DF230A06F005821A1B8883879A7E9FE347A4DBF" +
+		"F40B7237DD396582CA7A3749DDB6B3DDD7DB83684209EFC6339C37CAC276D29B",
+	"semiprime": "A75016C9FB685C8F179AE39EF3D1570E846AC3B7CA5834AE0886DE40DD94F2EE" +
+		"05CA901DBD95B1668F501AC8FD6AF454B007A4855EE27139B372843F00AC407F" +
+		"41B0B04A867EA040CB25401F11AB2CB14CCEB69165CB3AF82CE4CE677862409F" +
+		"BB6ABA0CE61306095F7FED7D7BAEE4AD1BD34FA8747788AFC797873492D840DC" +
+		"B152F6240350606A7199A70976291BC95AE73D9DB84C22CA1BE12FFA17A59726" +
+		"E26E852819B500C2CC24BF157C903DD029625E3DB18FEF990FC1DA952B063371" +
+		"963A4CBC6C9129EE3553F7947CA7B1AB03964329A1DD94A12F41E19F950214DB" +
+		"62D71E5CE073CF9F3D12D5BD62B15FFD7238460E327B3D4FB201992B443AF39D",
+}
+
+// VerifyCandidates checks that the precomputed constructions are what their names say.
+// It returns the first offending name or "".
+func VerifyCandidates() string {
+	one := big.NewInt(1)
+	for _, n := range []string{"prime-notsafe-a", "prime-notsafe-b"} {
+		p, _ := Candidate(n)
+		if p.BitLen() != 2048 || !p.ProbablyPrime(24) || new(big.Int).Rsh(p, 1).ProbablyPrime(24) {
+			return n
+		}
+	}
+	for _, n := range []string{"sophie-composite-a", "sophie-composite-b"} {
+		p, _ := Candidate(n)
+		q := new(big.Int).Rsh(p, 1)
+		if p.BitLen() != 2048 || p.ProbablyPrime(24) || !q.ProbablyPrime(24) || new(big.Int).Add(new(big.Int).Lsh(q, 1), one).Cmp(p) != 0 {
+			return n
+		}
+	}
+	if p, _ := Candidate("semiprime"); p.BitLen() != 2048 || p.ProbablyPrime(24) || p.Bit(0) == 0 {
+		return "semiprime"
+	}
+	return ""
+}
+
 func pow2(n uint) *big.Int { return new(big.Int).Lsh(big.NewInt(1), n) }
 
 func buildP(name string) *big.Int {
+	if h, ok := precomputed[name]; ok {
+		return mustHex(h)
+	}
 	one := big.NewInt(1)
 	var base, mod string
 	for i := 0; i < len(name); i++ {
